@@ -19,6 +19,11 @@ fn gen(seed: u64, idx: u64, _tier: Tier) -> Plan {
     s.workers = *rng.pick(&[1i64, 1, 2]);
     s.batch_size = *rng.pick(&[1i64, 2, 7, 16, 63, 64, 64]);
     s.log_level = Some(0);
+    if rng.chance(1, 5) {
+        // deliberate response errors change what a reply contains, never that only well-formed
+        // requests are answered nor that a reply is no longer than its request
+        s.fault_pct = *rng.pick(&[10i64, 50]);
+    }
     world_knobs(&mut rng, &mut plan, false);
     if rng.chance(1, 4) {
         // transient send_to / recv_from errors: what the worker does right after one must not
@@ -80,7 +85,26 @@ fn check(plan: &Plan, out: &RunOut) -> CheckOut {
     co.nontrivial = !v.recvs.is_empty() && !v.sends.is_empty();
     monitor_leak(&mut co, out);
     check_no_panic(&mut co, "C07", out);
-    check_only_wellformed(&mut co, "C07", &v);
+    if plan.server.as_ref().map(|s| s.fault_pct).unwrap_or(0) == 0 {
+        check_only_wellformed(&mut co, "C07", &v);
+    } else {
+        // a deliberately broken reply may not say which request it answers: replies that do
+        // (full verification or the echoed nonce) are judged as usual, the others against the
+        // longest datagram their destination has sent to this worker
+        co.probe("grease_profile");
+        let mut exact = View { recvs: v.recvs.clone(), sends: Vec::new(), batches: v.batches.clone(), clocks: v.clocks.clone(), sut_procs: v.sut_procs.clone() };
+        for snd in &v.sends {
+            if snd.how == "verified" || snd.how == "nonce" {
+                exact.sends.push(snd.clone());
+            } else {
+                let longest = v.recvs.iter().filter(|q| q.task == snd.task && q.src == snd.dst && q.seq < snd.seq).map(|q| q.data.len()).max().unwrap_or(0);
+                if snd.data.len() > longest {
+                    co.violate("C07", "amplification", "C07|amplification|greased_reply".into(), format!("{}-byte reply (seq {}) to {}, whose longest datagram to this worker so far had {} bytes", snd.data.len(), snd.seq, snd.dst, longest));
+                }
+            }
+        }
+        check_only_wellformed(&mut co, "C07", &exact);
+    }
     // the sentinels prove that the storm was processed
     let sentinel_answered = v.recvs.iter().any(|q| q.src == crate::reqs::client_addr(SENTINEL_SOCK) && !q.answers.is_empty());
     if sentinel_answered {
